@@ -401,7 +401,7 @@ FINDING_IDS = {
 
 
 def sample(p, o, n=12):
-    return dict(features=p['features'], tick=p.get('tick'), threads=p['threads'], nops=len(o.get('ops', [])),
+    return dict(features=p['features'], tick=p.get('tick'), threads=p['threads'], sched=p.get('sched'), nops=len(o.get('ops', [])),
                 ops_head=o.get('ops', [])[:n], snaps=o.get('snaps', [])[:1])
 
 
@@ -420,7 +420,8 @@ def run_property(prop, module, theorems, tier, seed, nquick, nthorough, feature_
     if extra_cases:
         programs = extra_cases + programs
     outs = run_oracle(impl, programs, prop.lower())
-    with_time = [not p['threads'] for p in programs]
+    # times are judged when the execution order is determined: one thread, or threads under an explicit schedule
+    with_time = [not p['threads'] or p.get('sched') is not None for p in programs]
     model_built = not any('build of' in f for f in res.obl['failures'])
     verdict, errors = ({}, [])
     if model_built:
@@ -555,6 +556,8 @@ def replay(prop, path, aspect):
     case = data.get('case', {})
     p = dict(files=files, names=[], kinds={}, twin_of={}, threads=case.get('threads', False),
              features=case.get('features', []), tick=case.get('tick', 0) or 0)
+    if case.get('sched') is not None:
+        p['sched'] = case['sched']
     o = run_oracle(impl, [p], prop.lower() + 'r')[0]
     if 'fatal' in o:
         print(o['fatal'])
